@@ -826,6 +826,60 @@ def _rename_private_functions(src):
     return out
 
 
+class _RangeToWhile(_ast.NodeTransformer):
+    """In kernels: `for i in range(n): body` (no continue/break in body, i and n not assigned in body) -> `i = 0; while i < n: body; i += 1`."""
+
+    def __init__(self):
+        self.in_kernel = False
+        self.count = 0
+
+    def visit_FunctionDef(self, f):
+        old = self.in_kernel
+        self.in_kernel = any("njit" in _ast.unparse(d) for d in f.decorator_list) and "prange" not in _ast.unparse(f)
+        f.body = self.block(f.body)
+        self.in_kernel = old
+        return f
+
+    def block(self, stmts):
+        out = []
+        for s_ in stmts:
+            for fld in ("body", "orelse"):
+                if hasattr(s_, fld) and isinstance(getattr(s_, fld), list) and not isinstance(s_, (_ast.FunctionDef, _ast.ClassDef)):
+                    setattr(s_, fld, self.block(getattr(s_, fld)))
+            if self.in_kernel and isinstance(s_, _ast.For) and isinstance(s_.iter, _ast.Call) and isinstance(s_.iter.func, _ast.Name) and s_.iter.func.id == "range" \
+                    and len(s_.iter.args) == 1 and isinstance(s_.iter.args[0], _ast.Name) and isinstance(s_.target, _ast.Name) and not s_.orelse \
+                    and not any(isinstance(x, (_ast.Continue, _ast.Break)) for x in _ast.walk(s_)) \
+                    and not any(isinstance(x, _ast.Name) and x.id in (s_.target.id, s_.iter.args[0].id) and isinstance(x.ctx, _ast.Store) for b in s_.body for x in _ast.walk(b)):
+                i, n = s_.target.id, s_.iter.args[0].id
+                init = _ast.parse("%s = uint64(0)" % i).body[0]
+                loop = _ast.parse("while %s < %s:\n    pass" % (i, n)).body[0]
+                loop.body = list(s_.body) + [_ast.parse("%s += uint64(1)" % i).body[0]]
+                out.extend([init, loop])
+                self.count += 1
+                continue
+            out.append(s_)
+        return out
+
+
+class _MinMaxToCond(_ast.NodeTransformer):
+    """`x = min(a, b)` -> `x = a if a < b else b` hmm: min returns the first on ties, the conditional the second: equal values, same result
+    for the scalars involved; `x = max(a, b)` -> `x = a if a > b else b`.  Only two-argument builtin calls with call-free arguments."""
+
+    def visit_Assign(self, n):
+        import copy as _copy
+        v = n.value
+        if isinstance(v, _ast.Call) and isinstance(v.func, _ast.Name) and v.func.id in ("min", "max") and len(v.args) == 2 and not v.keywords \
+                and not any(isinstance(x, _ast.Call) and not (isinstance(x.func, _ast.Name) and x.func.id.startswith(("uint", "int", "float"))) for a in v.args for x in _ast.walk(a)):
+            a, b = v.args
+            op = _ast.Lt() if v.func.id == "min" else _ast.Gt()
+            n.value = _ast.IfExp(test=_ast.Compare(left=_copy.deepcopy(a), ops=[op], comparators=[_copy.deepcopy(b)]), body=a, orelse=b)
+        return n
+
+
+add("E-global-10-range-loops-as-while-loops", ALL_PROPS, "*", _package_transform(lambda t: _RangeToWhile().visit(t)), None, kind="E",
+    note="in kernels without prange: for i in range(n) -> i = 0; while i < n: ...; i += 1")
+add("E-global-11-min-max-as-conditional-expressions", ALL_PROPS, "*", _package_transform(lambda t: _MinMaxToCond().visit(t)), None, kind="E",
+    note="x = min(a, b) -> x = a if a < b else b (and max)")
 add("E-global-08-rename-kernel-parameters", ALL_PROPS, "*", _rename_kernel_params, None, kind="E",
     note="every parameter of every @njit kernel renamed (call sites are positional)")
 add("E-global-09-rename-private-functions", ALL_PROPS, "*", _rename_private_functions, None, kind="E",
